@@ -33,8 +33,8 @@ RULE = (
     "connection (stale ones included); check `refcount` = share() and ref_count() on each of those connectables; check "
     "`autoconnect` = auto_connect(0..3) on each; in a third of the refcount/autoconnect cases explicit connect() calls on the underlying "
     "connectable are mixed into the history (never an explicit dispose); check `mapper` = publish(mapper), replay(mapper=), publish_value(v, "
-    "mapper), multicast(subject_factory=, mapper=) with mapper in {identity, use-the-connectable-twice}; check `enum` = "
-    "ALL histories of length <= 5 (thorough; quick: <= 3, and 4 over the cold source) over a fixed alphabet for 7 forms x 3 sources; "
+    "mapper), multicast(subject_factory=, mapper=) with mapper in {identity, use-the-connectable-twice, use-it-at-once-and-again-d=1..4-ticks-later}; check `enum` = "
+    "ALL histories of length <= 5 (thorough; quick: <= 3, and 4 over the cold source) over a fixed alphabet for 11 forms x 3 sources; "
     "check `enum_reentrant` = ALL histories of length <= 5 (thorough; quick <= 3, and 4 for share over the cold source) with >= 2 "
     "subscribers, one of them take(1)/kill/spawn, for 6 forms x 2 sources. Oracle = "
     "independent model: one source subscription per effective connect, open from the connect tick to the tick of the "
@@ -67,7 +67,9 @@ ASSUMPTIONS = [
     "any part of them; the library delivers none",
     "explicit connect() may be mixed with ref_count/auto_connect on the same connectable, an explicit dispose of the connection may not "
     "(who owns a connection that was re-made behind ref_count's back, or whether auto_connect re-connects, is not defined by the property text)",
-    "for the use-twice mapper the N events of one instant are compared as a multiset (cross-subscription interleaving on the replay scheduler is not specified)",
+    "the late second subscription of the late mapper sees exactly what a subscriber of replay(buffer, window) / publish_value / publish arriving at that tick sees "
+    "(replayed items still inside buffer and window, current value, nothing), then the live elements, i.e. every live element twice from then on",
+    "for the use-twice and late mappers the N events of one instant are compared as a multiset (cross-subscription interleaving on the replay scheduler is not specified)",
     "cases with >=90 actions at one virtual instant are discarded as inconclusive and counted",
 ]
 
